@@ -1116,6 +1116,8 @@ func lenBounds(t *Term) (int, bool) {
 		return 0, true
 	case t.Op == "lit":
 		return len(t.Args), true
+	case isEmptySliceTerm(t):
+		return 0, true
 	case t.Op == "append" && len(t.Args) == 2:
 		a, ea := lenBounds(t.Args[0])
 		b, eb := lenBounds(t.Args[1])
@@ -1298,6 +1300,54 @@ func (x *Exec) call(fr *frame, b *ssa.BasicBlock, i int, pred *ssa.BasicBlock, i
 	if m, ok := x.libModel(name, args, ins.Type()); ok {
 		fr.env[ins] = m
 		return false
+	}
+	// a local strings.Builder read back: the concatenation of what was written
+	// to it, in order (WriteString / WriteByte / WriteRune only)
+	if name == "(*strings.Builder).String" && len(args) == 1 && args[0].Op == "alloc" && st.fresh[args[0].Key()] {
+		var cat *Term
+		ok := true
+		for _, e := range st.effects {
+			uses := false
+			for k, a := range e.Args {
+				if a != nil && a.MentionsKey(args[0].Key()) {
+					uses = true
+					if k != 0 {
+						ok = false // the builder is handed to something else
+					}
+				}
+			}
+			if !uses {
+				continue
+			}
+			var piece *Term
+			switch {
+			case e.Kind == "call" && e.Name == "(*strings.Builder).WriteString" && len(e.Args) == 2:
+				piece = e.Args[1]
+			case e.Kind == "call" && (e.Name == "(*strings.Builder).WriteByte" || e.Name == "(*strings.Builder).WriteRune") && len(e.Args) == 2:
+				if c, err := strconv.ParseInt(e.Args[1].Name, 10, 32); err == nil && e.Args[1].Op == "const" && c > 0 && c < 128 {
+					piece = &Term{Op: "const", Name: strconv.Quote(string(rune(c))), Type: types.Typ[types.String]}
+				} else {
+					piece = &Term{Op: "conv", Name: "string", Args: []*Term{e.Args[1]}, Type: types.Typ[types.String]}
+				}
+			case e.Kind == "call" && (e.Name == "(*strings.Builder).Grow" || e.Name == "(*strings.Builder).Len"):
+				continue
+			case e.Kind == "enter" || e.Kind == "alloc":
+				continue
+			default:
+				ok = false
+			}
+			if piece != nil {
+				if cat == nil {
+					cat = piece
+				} else {
+					cat = &Term{Op: "bin", Name: "+", Args: []*Term{cat, piece}, Type: types.Typ[types.String]}
+				}
+			}
+		}
+		if ok && cat != nil {
+			fr.env[ins] = cat
+			return false
+		}
 	}
 	// strings.CutPrefix(s, "lit") is `if HasPrefix(s, "lit") { s[len("lit"):], true } else { s, false }`;
 	// strings.CutSuffix(s, p) is (TrimSuffix(s, p), HasSuffix(s, p))
